@@ -480,6 +480,28 @@ def _zip(it, self, args, kw):
     return VList([VTuple(list(t)) for t in zip(*cols)])
 
 
+@handler("sorted")
+def _sorted(it, self, args, kw):
+    """sorted() of a list whose elements are concrete (names, integers): the Python order; symbolic elements are outside the subset."""
+    items = it.iterate(args[0])
+    if kw.get("key") is not None:
+        raise OutOfSubset("sorted(key=...)")
+    keys = []
+    for x in items:
+        k = conc_key(x)
+        if k is None or isinstance(k, V):
+            raise OutOfSubset("sorted() of symbolic elements")
+        keys.append(k)
+    try:
+        order = sorted(range(len(items)), key=lambda i: keys[i])
+    except TypeError:
+        it.raise_(TypeError, "'<' not supported between instances")
+    rev = kw.get("reverse")
+    if rev is not None and rev.conc:
+        order.reverse()
+    return VList([items[i] for i in order])
+
+
 @handler("reversed")
 def _reversed(it, self, args, kw):
     return VList(list(reversed(it.iterate(args[0]))))
@@ -1821,6 +1843,7 @@ def _spec_unhex(it, self, args, kw):
     if x.conc is not None:
         return VBytes(bytes.fromhex(x.conc))
     t = s.UNHEX(x.e)
+    it.assume(z3.Implies(s.ISHEX(x.e), 2 * z3.Length(t) == z3.Length(x.e)))
     return VBytes(t)
 
 
